@@ -285,14 +285,18 @@ def gen_deck_case(rng, style, early=False):
         c = rng.random()
         if c < 0.16 or not rig.log and c < 0.5:
             n = rng.choice(R_LENS[:12]) if rng.random() < 0.8 else rng.randrange(0, 90)
-            do(['DR', rng.choice(BASES), rng.choice([0, 8, 0x40, 0x41, 100, 0xFFF0]), n,
-                tok[0] if rng.random() < 0.65 else -1 - tok[0]])            # negative: no failure callback
+            ev = ['DR', rng.choice(BASES), rng.choice([0, 8, 0x40, 0x41, 100, 0xFFF0]), n,
+                  tok[0] if rng.random() < 0.65 else -1 - tok[0]]           # negative: no failure callback
             tok[0] += 1
+            _deck_react(rng, ev, tok)
+            do(ev)
         elif c < 0.32 or not rig.log:
             n = rng.choice(W_LENS[:12]) if rng.random() < 0.8 else rng.randrange(0, 90)
-            do(['DW', rng.choice(BASES), rng.choice([0, 8, 0x40, 0x41, 100, 0xFFF0]),
-                [rng.randrange(256) for _ in range(n)], tok[0] if rng.random() < 0.65 else -1 - tok[0]])
+            ev = ['DW', rng.choice(BASES), rng.choice([0, 8, 0x40, 0x41, 100, 0xFFF0]),
+                  [rng.randrange(256) for _ in range(n)], tok[0] if rng.random() < 0.65 else -1 - tok[0]]
             tok[0] += 1
+            _deck_react(rng, ev, tok)
+            do(ev)
         elif c < 0.37:
             do(_gen_op(rng, [1, 2], rng.choice('RW'), 0))
         elif c < 0.66 and undel:
@@ -319,6 +323,24 @@ def gen_deck_case(rng, style, early=False):
         delivered.add(undel[0])
         do(['D', undel[0]])
     return {'plan': plan, 'events': events, 'windows': windows_of(events), 'early': early}
+
+
+def _deck_react(rng, ev, tok):
+    """with some probability the caller's deck callback issues the next deck request from inside: the next block
+    (write -> write), a read back (write -> read), the next read, a write of what was read, a retry after a failure"""
+    if rng.random() > 0.3:
+        return
+    on = rng.choice(['ok', 'ok', 'fail', 'any'])
+    if on == 'fail' and ev[4] < 0:
+        return                                  # no failure callback: nothing runs
+    if rng.random() < 0.35:
+        op = list(ev[:4]) + [tok[0]]            # the same request again (retry / next round)
+    elif rng.random() < 0.5:
+        op = ['DR', rng.choice(BASES), rng.choice([0, 8, 0x40]), rng.choice([5, 20, 30]), tok[0]]
+    else:
+        op = ['DW', rng.choice(BASES), rng.choice([0, 8, 0x40]), [rng.randrange(256) for _ in range(rng.choice([3, 25, 40]))], tok[0]]
+    tok[0] += 1
+    ev.append({'on': on, 'op': op})
 
 
 def _gen_op(rng, ids, kind, depth, same=None):
@@ -776,7 +798,8 @@ class Judge:
                 self.begin_deck_op(k, item[1], item[2])
             elif item[0] == 'dopret':
                 if item[1][0] == 'DR':
-                    self.end_op(k, ['R', c06_mem.DECK_ID], item[2], item[3])
+                    self.end_op(k, ['R', c06_mem.DECK_ID], item[2],
+                                (item[2] + 1 if item[4] else item[2]) if len(item) > 4 else item[3])
             elif item[0] == 'dn':
                 self.check_deck_note(k, item[1], item[2], item[3], item[4])
             else:
@@ -790,10 +813,11 @@ class Judge:
                 self.flag('deck_request_accepted_while_one_outstanding', 'the manager took a second deck %s while one '
                           'is outstanding' % ev[0], k=k)
             self.drefusal = None
-        elif rig.last_raised and ev[0] in ('DR', 'DW'):
-            self.flag('deck_request_refused_without_reason', 'DeckMemory.%s raised %s although no deck %s is outstanding: '
-                      'a callback record was left behind' % ('read' if ev[0] == 'DR' else 'write', rig.last_exc,
-                                                            'read' if ev[0] == 'DR' else 'write'), 'served', 'raised', k)
+        elif rig.last_raised and (ev[0] in ('DR', 'DW') or 'operation ongoing' in rig.last_exc):
+            what = 'read' if 'Read' in rig.last_exc else 'write'
+            self.flag('deck_request_refused_without_reason', 'DeckMemory.%s raised %s although no deck %s is outstanding '
+                      '(made from inside a deck callback if the event is a delivery): a callback record is still there'
+                      % (what, rig.last_exc, what), 'served', 'raised', k)
         elif rig.last_raised and "'NoneType' object is not callable" in rig.last_exc and \
                 any(t < 0 and d['kind'] == 'w' for t, d in self.dops.items()):
             self.flag('deck_write_failed_without_callback_raises', 'a deck write made without write_failed_cb fails: the '
@@ -1140,6 +1164,16 @@ def deck_systematic_cases():
                     + [['DW', B, 8, d60, 2], ['D', k + 1], ['D', k + 2], ['D', k + 3], ['DR', A, 0, 5, -3], ['D', k + 4]]})
     out.append({'plan': [], 'events': [['DW', B, 8, d60, -1], ['W', 1, 0, [1, 2, 3], False], ['R', 2, 0, 5], ['X'],
                                        ['DW', B, 8, [1], 2], ['D', 3]]})
+    # deck requests made from inside deck callbacks: next block, read back, next read, write of what was read, retry
+    chain = [(['DW', B, 8, d60, 0, {'on': 'ok', 'op': ['DW', B, 68, d60, 1]}], []),
+             (['DW', B, 8, d60, 0, {'on': 'ok', 'op': ['DR', B, 8, 30, 1]}], []),
+             (['DR', A, 0x40, 30, 0, {'on': 'ok', 'op': ['DR', A, 0x5E, 30, 1]}], []),
+             (['DR', A, 0x40, 30, 0, {'on': 'ok', 'op': ['DW', B, 8, d60, 1]}], []),
+             (['DW', B, 8, d60, 0, {'on': 'fail', 'op': ['DW', B, 8, d60, 1]}], [9]),
+             (['DW', B, 8, d60, 0, {'on': 'fail', 'op': ['DW', B, 8, d60, 1]}], [0, 9]),
+             (['DR', A, 0x40, 30, 0, {'on': 'fail', 'op': ['DR', A, 0x40, 30, 1]}], [9])]
+    for ev, plan in chain:
+        out.append({'plan': plan, 'events': [ev] + [['D', j] for j in range(10)]})
     return out
 
 
